@@ -113,7 +113,8 @@ class RefTarget:
             self._check_session(cmd, session)
             if session == self.session_handle:
                 self.registered = False
-                self.connections.clear()
+                if not self.cfg.get("unregister_keeps_connections"):
+                    self.connections.clear()   # (a target may also hold them until they time out: see cfg)
             return None
 
         if cmd == ENC_LIST_IDENTITY:
